@@ -580,19 +580,19 @@ Definition dod_eqb (g1 g2 : graph) : bool :=
   Nat.eqb (length g1) (length g2)
   && forallb (fun p => has_node g2 (fst p) && adj_dict_eqb (snd p) (adj_of g2 (fst p))) g1.
 
-(* None = the comparison raises ValueError (dosing_compartments of a system without dose) *)
-Definition cs_eq (a b : cs) : option bool :=
+(* _dosing_compartments_or_none (fix 876afb2): "no dosing compartments" (no dose, or no central
+   compartment) is a value of the comparison, == never raises *)
+Definition odosing_eqb (a b : option (list comp)) : bool :=
+  match a, b with
+  | Some d1, Some d2 => list_eqb comp_eqb d1 d2
+  | None, None => true
+  | _, _ => false
+  end.
+
+Definition cs_eq (a b : cs) : bool :=
   let '(g1, t1) := a in
   let '(g2, t2) := b in
-  if negb (expr_eqb t1 t2) then Some false
-  else if negb (dod_eqb g1 g2) then Some false
-  else match dosing_compartments g1 with
-       | None => None
-       | Some d1 => match dosing_compartments g2 with
-                    | None => None
-                    | Some d2 => Some (list_eqb comp_eqb d1 d2)
-                    end
-       end.
+  expr_eqb t1 t2 && dod_eqb g1 g2 && odosing_eqb (dosing_compartments g1) (dosing_compartments g2).
 
 (* ---- subs ---------------------------------------------------------------------------------------- *)
 Definition osubs (m : list (id * expr)) (e : option expr) : option expr := option_map (subs_map m) e.
